@@ -190,7 +190,6 @@ func TestC08_RealLoop(t *testing.T) {
 	})
 }
 
-
 // pipeRun plays one fixed pipeline (message types, pushed before the run loop starts) and
 // returns the callbacks and the wire frames.
 func pipeRun(t vk.TB, types []string, answer bool) (cbs, w []string, closed bool) {
